@@ -19,7 +19,8 @@
 
    GLUE  (Section Glue, zstd abstract as compress/decompress): put_object, put_bytes (skips empty),
    get_object, get_bytes (FIXED code: absent member = empty, unreadable member = error), extract_objects
-   (FIXED code: an optional member is skipped only when absent), unpack (the cache-hit path of get_cached_or_compile).
+   (FIXED code: an optional member is skipped only when absent), open_entry (FIXED code: duplicate names are
+   refused), unpack (the cache-hit path of get_cached_or_compile).
 
    Large inputs: everything that walks a payload is written tail-recursively (fold_left / accumulators /
    rev_append) so that the extracted code can process MiB-sized members with the default stack. *)
@@ -465,6 +466,20 @@ Definition by_name (ar : list cent) (name : list N) : option cent :=
 Definition has_name (ar : list cent) (name : list N) : bool :=
   existsb (fun c => beq (c_key c) name) ar.
 
+(* CacheRead::from (FIXED code): ZipArchive::new, then refuse a directory that names two members alike
+   (names_map.len() != files.len()) *)
+Fixpoint nodup_keys (ar : list cent) : bool :=
+  match ar with
+  | [] => true
+  | c :: r => negb (has_name r (c_key c)) && nodup_keys r
+  end.
+
+Definition open_entry (bs : list N) : option (list cent) :=
+  match open_archive bs with
+  | Some ar => if nodup_keys ar then Some ar else None
+  | None => None
+  end.
+
 (* ------------------------------------------------------------------ reader: one member *)
 
 Inductive rres (A : Type) : Type := ROk (a : A) | RErr | RPanic.
@@ -620,7 +635,7 @@ Section Glue.
 
   (* the Cache::Hit arm of get_cached_or_compile *)
   Definition unpack (bs : list N) (reqs : list (list N * bool)) : ures :=
-    match open_archive bs with
+    match open_entry bs with
     | None => UMiss
     | Some ar =>
       match get_bytes ar bs NAME_STDOUT with
